@@ -214,7 +214,23 @@ class C08(Spec):
         return us
 
 
-_SPECS = {'C08': C08, 'C01': C01, 'C02': C02, 'C03': C03, 'C04': C04, 'C05': C05, 'C06': C06, 'C07': C07}
+class C09(Spec):
+    engine = 'E3-bfs'
+    design_ref = 'DESIGN.md 4/C09'
+    technique = 'exhaustive enumeration of output subsets x lattice inputs, and explicit-state exploration of call histories in fresh forked processes (hidden state = initialised function-local statics)'
+    level_text = ('all 2^k subsets of the optional Jacobian outputs of 17 operations (plus outputs bound to blocks of larger sentinel-filled matrices) on lattice inputs; all ordered pairs (thorough: triples) of ~45 calls, '
+                  'each history in a fresh forked process so that the first use of every lazily initialised static is real, last result compared bytewise with the same call alone in a fresh process; '
+                  '17 aliasing patterns (X=X*X, Map updated in place, Map over the other operand buffer) compared bitwise with the unaliased computation')
+    rule = ('states = (operation, input cell) for subsets/aliasing and call histories for purity; transitions = individual expectations evaluated; non-trivial = both rotations non-zero, resp. histories of two different calls')
+    explanation = 'explicit enumeration on the real code; oracle = the same call with no optional output / alone in a fresh process / unaliased (bitwise)'
+    assumptions = ['bitwise comparisons are between executions of the same binary; no tolerance is involved']
+    level_note = 'trusted: fork() gives each history a pristine copy of the never-initialised statics (the parent never calls a manif function before forking)'
+
+    def units(self, tier):
+        return lattice_units('checks/c09.cpp', shards=(lambda g, s: 4 if tier == 'thorough' else 2))
+
+
+_SPECS = {'C08': C08, 'C09': C09, 'C01': C01, 'C02': C02, 'C03': C03, 'C04': C04, 'C05': C05, 'C06': C06, 'C07': C07}
 
 
 def get(prop):
